@@ -183,6 +183,66 @@ def run(ctx):
     rule6_grouping(ctx, w)
     rule7_replay(ctx)
     rule8_descent(ctx, w)
+    rule9_union(ctx)
+
+
+UNION_FIELDS = ('dr_pi_dag_node.subgraphs_begin_offset', 'dr_pi_dag_node.subgraphs_end_offset', 'dr_pi_dag_node.child_offset')
+
+
+def kind_guards(f, node, SEC, CRE):
+    """edges on which info.kind >= section (resp. == create_task) of the DAG node `node` is established"""
+    sec, cre = [], []
+    for ic in f.order:
+        if ic.op != 'icmp':
+            continue
+        l = f.get(f.strip(ic.ops[0])) if isinstance(ic.ops[0], str) else None
+        if l is None or l.op != 'load' or f.field(l) != 'dr_dag_node_info.kind':
+            continue
+        if f.strip(f.ap(l.ops[0]).root) != f.strip(node.root) or [x for x in f.ap(l.ops[0]).steps if x[0] == 'p'] != [x for x in node.steps if x[0] == 'p']:
+            continue
+        c = const_int(ic.ops[1])
+        for cond, pol in lib.cond_chain(f, ic.id, True):
+            for br, t, fe in f.cond_edges(cond):
+                T, F = (t, fe) if pol else (fe, t)
+                if (ic.pred in ('uge', 'sge') and c == SEC) or (ic.pred in ('ugt', 'sgt') and c == SEC - 1) or (ic.pred == 'eq' and c in (SEC, SEC + 1)):
+                    sec.append((br, T))
+                if (ic.pred in ('ult', 'slt') and c == SEC) or (ic.pred in ('ule', 'sle') and c == SEC - 1):
+                    sec.append((br, F))
+                if ic.pred == 'eq' and c == CRE:
+                    cre.append((br, T))
+                if ic.pred == 'ne' and c == CRE:
+                    cre.append((br, F))
+    return sec, cre
+
+
+def rule9_union(ctx):
+    ctx.doc('C19.9', 'discriminated union of a DAG-file node (child_offset for create_task nodes, subgraphs_begin/end_offset for sections '
+            'and tasks, overlaid): in every libdr unit each read of a subgraph offset happens where info.kind >= section of that very '
+            'node has been established, each read of child_offset where kind == create_task has')
+    en = ctx.enumerators('dr_dump.c', area='profiler')
+    SEC, CRE = ctx.need_enum(en, 'dr_dag_node_kind_section'), ctx.need_enum(en, 'dr_dag_node_kind_create_task')
+    n = 0
+    for file in sorted(ctx.db['profiler']):
+        m = ctx.ssa(file, area='profiler')
+        roots = [nm for nm, f in m.functions.items() if any(i.op == 'load' and f.field(i) in UNION_FIELDS for i in f.order)]
+        if not roots:
+            continue
+        v = ctx.view(file, roots=roots, stops=tuple(roots), area='profiler')
+        for nm in sorted(roots):
+            f = v.fn(nm)
+            ctx.fn_analysed.add(nm)
+            for l in f.order:
+                if l.op != 'load' or f.field(l) not in UNION_FIELDS:
+                    continue
+                n += 1
+                sec, cre = kind_guards(f, f.ap(l.ops[0]), SEC, CRE)
+                g = cre if f.field(l).endswith('child_offset') else sec
+                what = 'kind == create_task' if f.field(l).endswith('child_offset') else 'kind >= section'
+                ctx.ob('C19.9', '%s: %s read under %s' % (nm, f.field(l).split('.')[-1], what),
+                       any(f.edge_dominates(br.block.id, sx, l) for br, sx in g),
+                       'the other member of the union lives in the same bytes: an empty-range test on a create_task node compares its '
+                       'child offset with garbage, a child offset read from a section is a subgraph offset', loc=l.loc)
+    ctx.floor('C19.9', 18)
 
 
 def rule8_descent(ctx, w):
@@ -809,6 +869,8 @@ MUTANTS = [
      'edits': [('src/profiler/chronological.c', "\t && g->subgraphs_begin_offset < g->subgraphs_end_offset) {\n    g = g + g->subgraphs_begin_offset;", "\t && g->info.cur_node_count > 1) {\n    g = g + g->subgraphs_begin_offset;")]},
     {'name': 'node_last descends into an empty range', 'expect': 'C19.8',
      'edits': [(DUMP, "\t && g->subgraphs_begin_offset < g->subgraphs_end_offset) {\n    g = g + g->subgraphs_end_offset - 1;", "\t && g->subgraphs_begin_offset <= g->subgraphs_end_offset) {\n    g = g + g->subgraphs_end_offset - 1;")]},
+    {'name': 'leaf test of the delay computation ignores the node kind (seed2 C18/m3)', 'expect': 'C19.9',
+     'edits': [('src/profiler/gen_stat.c', "    if (t->info.kind < dr_dag_node_kind_section\n\t|| t->subgraphs_begin_offset == t->subgraphs_end_offset) {", "    if (t->subgraphs_begin_offset == t->subgraphs_end_offset) {")]},
     {'name': 'edge pointers set before sorting', 'expect': 'C19.2',
      'edits': [(DUMP, "  dr_pi_dag_enum_edges(G_);\t   /* G_->E */\n  dr_pi_dag_sort_edges(G_);\n  dr_pi_dag_set_edge_ptrs(G_);", "  dr_pi_dag_enum_edges(G_);\t   /* G_->E */\n  dr_pi_dag_set_edge_ptrs(G_);\n  dr_pi_dag_sort_edges(G_);")]},
 ]
